@@ -8,20 +8,7 @@
 //! Exit codes: 0 property held on everything explored, 1 violation
 //! (`VIOLATION property=<id> replay=<path>`), 2 could not decide.
 
-mod arena;
-mod c07;
-mod c15;
-mod consume;
-mod exec;
-mod gen;
-mod interp;
-mod known;
-mod model;
-mod props;
-mod runner;
-mod script;
-mod sweep;
-mod world;
+use cxcheck::{arena, runner};
 
 #[global_allocator]
 static GLOBAL: arena::CheckingAlloc = arena::CheckingAlloc;
@@ -37,6 +24,7 @@ fn main() {
         "worker" => runner::worker(&args[2..]),
         "replay" => runner::replay_cmd(&args[2..]),
         "sweepworker" => runner::sweep_worker(&args[2..]),
+        "fuzzjudge" => cxcheck::fuzz::judge_cmd(&args[2..]),
         _ => {
             eprintln!("unknown command {}", args[1]);
             2
